@@ -1,4 +1,5 @@
 import Qentem.Proofs.StrToNumPosUlp
+import Qentem.Proofs.StrToNumRatClose
 /-! C09: the positive-exponent path on a **truncated mantissa with an integer exact value** — the scan keeps the first
 19 or 20 digits `v ≥ 10^18` and counts the ignored integer digits into the exponent `x`; the exact value `Vt` is an
 integer with `v·10^x ≤ Vt < (v+1)·10^x`. The result is within one ulp of the correctly rounded `Vt`: the pipeline is
@@ -7,9 +8,14 @@ short by less than 1/16 of the 54-bit unit (`inv_to_close`), the truncation by l
 namespace Qentem.StrToNum
 open Qentem.Round Qentem.Generated.StrToNum
 
+theorem cap_ge_maxFinite (c : Nat) (h : maxFiniteBits ≤ c) : maxFiniteBits ≤ cap c := by
+  unfold cap maxFiniteBits infBits at *
+  split <;> omega
+
 theorem powerOfPositiveTen_close_trunc_int (v x Vt : Nat) (hv18 : 10 ^ 18 ≤ v) (hv : v < 2 ^ 64) (hx : x ≤ 2 ^ 20)
     (ht1 : v * 10 ^ x ≤ Vt) (ht2 : Vt < (v + 1) * 10 ^ x) :
-    ∃ p, powerOfPositiveTen v x = some p ∧ ulpDist p (nearestMag Vt 1) ≤ 1 := by
+    ∃ p, powerOfPositiveTen v x = some p ∧ ulpDist p (nearestMag Vt 1) ≤ 1 ∧
+      ((2 ^ 53 - 1) * 2 ^ 971 ≤ Vt → maxFiniteBits ≤ p) := by
   have hn0 : 0 < v := Nat.lt_of_lt_of_le (Nat.pow_pos (by decide)) hv18
   obtain ⟨p27, hp27e, hcases⟩ := posScale_closed v x hv
   have hp27 : p27 = 5 ^ 27 := by
@@ -95,10 +101,208 @@ theorem powerOfPositiveTen_close_trunc_int (v x Vt : Nat) (hv18 : 10 ^ 18 ≤ v)
   have hVt2 : Vt < B + u := by
     have : Vt < v * T + T := by rw [Nat.add_mul, Nat.one_mul] at ht2; exact ht2
     omega
-  obtain ⟨r1, r2, _, _⟩ := raw_close b (x + 64 * j) Vt hb (by rw [hB]; omega)
+  obtain ⟨r1, r2, r3, _⟩ := raw_close b (x + 64 * j) Vt hb (by rw [hB]; omega)
     (fun h => absurd h (by omega)) (fun _ => by rw [hu, hB]; exact hVt2)
   have hVt0 : 0 < Vt := Nat.lt_of_lt_of_le (Nat.mul_pos hn0 (by rw [← h10]; exact Nat.pow_pos (by decide))) ht1
   rw [nearestMag_nat _ hVt0]
-  exact cap_close _ _ r2 r1
+  exact ⟨cap_close _ _ r2 r1, fun hov => cap_ge_maxFinite _ (Nat.le_trans (floorRaw_ge_maxFinite _ hov) r3)⟩
+
+/-- the big integer of the positive path for a mantissa `v ≥ 10^16`: more than 53 bits, never above `v·10^x`, short
+of it by less than 1/16 of the 54-bit unit `u = 2^(bit−53)·2^s` -/
+theorem posScale_trunc_facts (v x : Nat) (hv16 : 10 ^ 16 ≤ v) (hv : v < 2 ^ 64) (hx : x ≤ 2 ^ 20) :
+    ∃ b s, posScale v x = some (b, s) ∧ 0 < b ∧ b < 2 ^ 256 ∧ s + 1 < 2 ^ 32 ∧ 52 < Nat.log2 b ∧
+      b * 2 ^ s ≤ v * 10 ^ x ∧ 16 * (v * 10 ^ x) < 16 * (b * 2 ^ s) + 2 ^ (Nat.log2 b - 53) * 2 ^ s := by
+  have hn0 : 0 < v := Nat.lt_of_lt_of_le (Nat.pow_pos (by decide)) hv16
+  obtain ⟨p27, hp27e, hcases⟩ := posScale_closed v x hv
+  have hp27 : p27 = 5 ^ 27 := by
+    have := pow5_get 27 (by decide); rw [hp27e] at this; exact Option.some.inj this
+  have hp27pos : 0 < p27 := by rw [hp27]; decide
+  have hp27lt : p27 < 2 ^ 63 := by rw [hp27]; decide
+  have hinit : PosInv v v 0 := by
+    refine ⟨by simp, ?_, Or.inl rfl⟩
+    rw [Nat.mul_zero, Nat.pow_zero, Nat.mul_one, Nat.add_zero, Nat.mul_comm]
+  obtain ⟨j, hinv, _, hjn, hs⟩ := posIter_inv p27 hp27pos hp27lt (x / 27) v x v 0 hinit
+    (by have := Nat.div_le_self x 27; omega) (by have := Nat.div_le_self x 27; omega)
+    (Nat.lt_of_lt_of_le hv (by decide))
+  obtain ⟨_, hlt192⟩ := posLoop_closed p27 hp27lt (x / 27) v x (Nat.lt_of_lt_of_le hv (by decide))
+  have hj20 : j ≤ 2 ^ 20 := by have := Nat.div_le_self x 27; omega
+  have hV : v * 10 ^ x = v * 5 ^ x * 2 ^ x := by
+    rw [show (10 : Nat) = 5 * 2 by decide, Nat.mul_pow]; ring
+  have hx27 : x = 27 * (x / 27) + x % 27 := (Nat.div_add_mod x 27).symm
+  have final : ∃ b s, posScale v x = some (b, s) ∧ b < 2 ^ 256 ∧ s = x + 64 * j ∧ PosInv b (v * 5 ^ x) j := by
+    rcases hcases with ⟨h0, hps⟩ | ⟨h0, pj, hpje, hps, hlt⟩
+    · refine ⟨_, _, hps, Nat.lt_of_lt_of_le hlt192 (by decide), by simpa using hs, ?_⟩
+      have : v * p27 ^ (x / 27) = v * 5 ^ x := by
+        rw [hp27, ← Nat.pow_mul]; congr 2; omega
+      rw [← this]; exact hinv
+    · have hpj : pj = 5 ^ (x % 27) := by
+        have := pow5_get (x % 27) (by omega); rw [hpje] at this; exact Option.some.inj this
+      refine ⟨_, _, hps, Nat.lt_of_lt_of_le hlt (by decide), by simpa using hs, ?_⟩
+      have : v * p27 ^ (x / 27) * pj = v * 5 ^ x := by
+        rw [hp27, hpj, ← Nat.pow_mul, Nat.mul_assoc, ← Nat.pow_add]; congr 2; omega
+      rw [← this]
+      exact hinv.mul pj (by rw [hpj]; exact Nat.pow_pos (by decide))
+  obtain ⟨b, s, hps, hb256, hsx, hfin⟩ := final
+  have hNpos : 0 < v * 5 ^ x := Nat.mul_pos hn0 (Nat.pow_pos (by decide))
+  obtain ⟨hb, k1, k2, k3, k4⟩ := inv_to_close b (v * 5 ^ x) j x hNpos hfin hj20
+  have hb0 : b ≠ 0 := by omega
+  obtain ⟨hlo, hhi⟩ := log2_bounds b hb0
+  -- the big integer has more than 53 bits
+  have hbit : 52 < Nat.log2 b := by
+    by_contra hc
+    have hle : Nat.log2 b ≤ 52 := by omega
+    have hb53 : b < 2 ^ 53 := Nat.lt_of_lt_of_le hhi (Nat.pow_le_pow_right (by decide) (by omega))
+    obtain ⟨h1, h2, h3⟩ := hfin
+    have hj0 : j = 0 := by
+      rcases h3 with h | h
+      · exact h
+      · exfalso
+        have : (2 : Nat) ^ 53 ≤ 2 ^ 128 := by decide
+        omega
+    subst hj0
+    have heq := k2 hle
+    rw [Nat.mul_zero, Nat.add_zero] at heq
+    have hNb : v * 5 ^ x = b := Nat.eq_of_mul_eq_mul_right (Nat.pow_pos (by decide)) heq
+    have h5 : 1 ≤ 5 ^ x := Nat.pow_pos (by decide)
+    have : v ≤ v * 5 ^ x := Nat.le_mul_of_pos_right _ h5
+    have : (2 : Nat) ^ 53 ≤ 10 ^ 16 := by decide
+    omega
+  have hk4 := k4 hbit
+  rw [← hV] at k1 hk4
+  exact ⟨b, s, hps, hb, hb256, by omega, hbit, by rw [hsx]; exact k1, by rw [hsx]; exact hk4⟩
+
+theorem codeRawNeg_zero (b s : Nat) (hb : b ≠ 0) (hbit : 52 < Nat.log2 b) : codeRawNeg (b * 2 ^ s) 0 = codeRaw b s := by
+  unfold codeRawNeg codeRaw
+  rw [log2_mul_pow b s hb, if_neg (by omega)]
+  have hm : max (Nat.log2 b + s) (0 - 1022) = Nat.log2 b + s := by omega
+  rw [hm, show Nat.log2 b + s - 53 = (Nat.log2 b - 53) + s by omega, Nat.pow_add, halfUp_scale _ _ _ (Nat.pow_pos (by decide))]
+  congr 1
+
+theorem codeRawNeg_shift2 (b s : Nat) (hb : b ≠ 0) (hbit : 52 < Nat.log2 b) : codeRawNeg (b * 2 ^ (s + 2)) 2 = codeRaw b s := by
+  unfold codeRawNeg codeRaw
+  rw [log2_mul_pow b (s + 2) hb, if_neg (by omega)]
+  have hm : max (Nat.log2 b + (s + 2)) (2 - 1022) = Nat.log2 b + (s + 2) := by omega
+  have h1 : 2 ^ (Nat.log2 b + (s + 2) - 53) = 2 ^ (Nat.log2 b - 53) * 2 ^ (s + 2) := by
+    rw [← Nat.pow_add]; congr 1; omega
+  rw [hm, h1, halfUp_scale _ _ _ (Nat.pow_pos (by decide))]
+  congr 1
+
+/-- **the positive path on a truncated mantissa with a rational exact value** `N/D`: `v·10^x ≤ N/D`, relative excess
+below `10^-17`, `v ≥ 10^16`: within one ulp of the correctly rounded `N/D` (pipeline short by `< u/16`, truncation
+`< 7u/16`, together below the quarter ulp `u/2` that `raw_close_rat` needs; `16·2^54 + 1 ≤ 7·10^17`), and never below
+the largest finite double when `N/D` reaches it -/
+theorem powerOfPositiveTen_close_trunc_rat (v x N D : Nat) (hv16 : 10 ^ 16 ≤ v) (hv : v < 2 ^ 64) (hx : x ≤ 2 ^ 20)
+    (hD : 0 < D) (ht1 : v * 10 ^ x * D ≤ N) (ht2 : 10 ^ 17 * N < (10 ^ 17 + 1) * (v * 10 ^ x * D)) :
+    ∃ p, powerOfPositiveTen v x = some p ∧ ulpDist p (nearestMag N D) ≤ 1 ∧
+      ((2 ^ 53 - 1) * 2 ^ 971 * D ≤ N → maxFiniteBits ≤ p) := by
+  obtain ⟨b, s, hps, hb, hb256, hs32, hbit, k1, k4⟩ := posScale_trunc_facts v x hv16 hv hx
+  have hb0 : b ≠ 0 := by omega
+  obtain ⟨hlo, hhi⟩ := log2_bounds b hb0
+  refine ⟨cap (codeRaw b s), by simp [powerOfPositiveTen, hps, posFinish_eq b s hb hb256 hs32], ?_⟩
+  -- B < 2^54·u with u = 2^(bit−53)·2^s
+  have hBu : b * 2 ^ s < 2 ^ 54 * (2 ^ (Nat.log2 b - 53) * 2 ^ s) := by
+    calc b * 2 ^ s < 2 ^ (Nat.log2 b + 1) * 2 ^ s := Nat.mul_lt_mul_of_pos_right hhi (Nat.pow_pos (by decide))
+      _ = 2 ^ 54 * (2 ^ (Nat.log2 b - 53) * 2 ^ s) := by
+          rw [show Nat.log2 b + 1 = 54 + (Nat.log2 b - 53) by omega, Nat.pow_add, Nat.mul_assoc]
+  have hB53 : 2 ^ 53 ≤ b * 2 ^ s := by
+    have h1 : 2 ^ 53 ≤ b := Nat.le_trans (Nat.pow_le_pow_right (by decide) (by omega)) hlo
+    exact Nat.le_trans h1 (Nat.le_mul_of_pos_right _ (Nat.pow_pos (by decide)))
+  -- the shifted big integer B' = 4B and its quarter ulp G' = 2u
+  have hlogB' : Nat.log2 (b * 2 ^ (s + 2)) = Nat.log2 b + (s + 2) := log2_mul_pow b (s + 2) hb0
+  have hG' : 2 ^ (Nat.log2 (b * 2 ^ (s + 2)) - 54) = 2 * (2 ^ (Nat.log2 b - 53) * 2 ^ s) := by
+    rw [hlogB', ← Nat.pow_add, show Nat.log2 b + (s + 2) - 54 = (Nat.log2 b - 53 + s) + 1 by omega, Nat.pow_succ]; ring
+  have hB' : b * 2 ^ (s + 2) = 4 * (b * 2 ^ s) := by rw [Nat.pow_add]; ring
+  have hc : codeRawNeg (b * 2 ^ (s + 2)) 2 = codeRaw b s := codeRawNeg_shift2 b s hb0 hbit
+  generalize hu : 2 ^ (Nat.log2 b - 53) * 2 ^ s = u at *
+  generalize hBd : b * 2 ^ s = B at *
+  generalize h10 : 10 ^ x = T at *
+  have hu0 : 0 < u := by rw [← hu]; exact Nat.mul_pos (Nat.pow_pos (by decide)) (Nat.pow_pos (by decide))
+  have hG'' : 2 ^ (Nat.log2 (4 * B) - 54) = 2 * u := by rw [← hB']; exact hG'
+  have hc' : codeRawNeg (4 * B) 2 = codeRaw b s := by rw [← hB']; exact hc
+  -- N < (B + u/2)·D, i.e. 2N < (2B + u)·D
+  have hq : 2 * N < (2 * B + u) * D := by
+    have hA : 16 * B + u ≤ 7 * 10 ^ 17 * u := by
+      have h1 : 16 * B ≤ 16 * (2 ^ 54 * u) := Nat.mul_le_mul_left _ (Nat.le_of_lt hBu)
+      have h2 : 16 * (2 ^ 54 * u) + u = (16 * 2 ^ 54 + 1) * u := by ring
+      have h3 : (16 * 2 ^ 54 + 1) * u ≤ 7 * 10 ^ 17 * u := Nat.mul_le_mul_right _ (by decide)
+      omega
+    have hC : (10 ^ 17 + 1) * (16 * B + u) ≤ 10 ^ 17 * (16 * B + 8 * u) := by
+      have e1 : (10 ^ 17 + 1) * (16 * B + u) = 10 ^ 17 * (16 * B + u) + (16 * B + u) := by ring
+      have e2 : 10 ^ 17 * (16 * B + 8 * u) = 10 ^ 17 * (16 * B + u) + 7 * 10 ^ 17 * u := by ring
+      omega
+    have hF : 10 ^ 17 * (16 * N) < 10 ^ 17 * ((16 * B + 8 * u) * D) := by
+      calc 10 ^ 17 * (16 * N) = 16 * (10 ^ 17 * N) := by ring
+        _ < 16 * ((10 ^ 17 + 1) * (v * T * D)) := Nat.mul_lt_mul_of_pos_left ht2 (by decide)
+        _ = (10 ^ 17 + 1) * (16 * (v * T)) * D := by ring
+        _ ≤ (10 ^ 17 + 1) * (16 * B + u) * D :=
+            Nat.mul_le_mul_right _ (Nat.mul_le_mul_left _ (Nat.le_of_lt k4))
+        _ ≤ 10 ^ 17 * (16 * B + 8 * u) * D := Nat.mul_le_mul_right _ hC
+        _ = 10 ^ 17 * ((16 * B + 8 * u) * D) := by ring
+    have h1 := Nat.lt_of_mul_lt_mul_left hF
+    have e : (16 * B + 8 * u) * D = 8 * ((2 * B + u) * D) := by ring
+    omega
+  have hBD : B * D ≤ N := by
+    have : B * D ≤ v * T * D := Nat.mul_le_mul_right _ k1
+    omega
+  have q1 : 4 * B * D ≤ 4 * N + 2 * u * D := by
+    have e2 : 4 * B * D = 4 * (B * D) := by ring
+    omega
+  have q2 : 4 * N ≤ 4 * B * D + 2 * u * D := by
+    have e : (2 * B + u) * D = 2 * (B * D) + u * D := by ring
+    have e2 : 4 * B * D = 4 * (B * D) := by ring
+    have e3 : 2 * u * D = 2 * (u * D) := by ring
+    omega
+  -- L = ⌊log₂(4N/D)⌋
+  have hNlow : 2 ^ 55 * D ≤ 4 * N := by
+    have h1 : 2 ^ 53 * D ≤ B * D := Nat.mul_le_mul_right _ hB53
+    have e : (2 : Nat) ^ 55 * D = 4 * (2 ^ 53 * D) := by rw [show (2 : Nat) ^ 55 = 4 * 2 ^ 53 by decide]; ring
+    omega
+  have hq0 : 4 * N / D ≠ 0 := by
+    intro h
+    rcases (Nat.div_eq_zero_iff).1 h with h | h
+    · omega
+    · have : 1 * D ≤ 2 ^ 55 * D := Nat.mul_le_mul_right _ (by decide)
+      omega
+  obtain ⟨l1, l2⟩ := log2_bounds (4 * N / D) hq0
+  generalize hL : Nat.log2 (4 * N / D) = L at *
+  have hL1 : D * 2 ^ L ≤ 4 * N := Nat.le_trans (Nat.mul_le_mul_left _ l1) (Nat.mul_div_le _ _)
+  have hL2 : 4 * N < D * 2 ^ (L + 1) := by
+    have := (Nat.div_lt_iff_lt_mul hD).1 l2
+    rw [Nat.mul_comm D]; exact this
+  have hL52 : 52 ≤ L := by
+    by_contra hcn
+    have : 2 ^ (L + 1) ≤ 2 ^ 55 := Nat.pow_le_pow_right (by decide) (by omega)
+    have : D * 2 ^ (L + 1) ≤ D * 2 ^ 55 := Nat.mul_le_mul_left _ this
+    rw [Nat.mul_comm D (2 ^ 55)] at this
+    omega
+  have hN0 : 0 < N := by
+    rcases Nat.eq_zero_or_pos N with h | h
+    · subst h; have : 0 < 2 ^ 55 * D := Nat.mul_pos (Nat.pow_pos (by decide)) hD; omega
+    · exact h
+  have hB54 : 2 ^ 54 ≤ 4 * B := by
+    have : (2 : Nat) ^ 54 = 2 * 2 ^ 53 := by decide
+    omega
+  obtain ⟨c1, c2⟩ := raw_close_rat (4 * B) 2 (4 * N) D L hD hB54
+    (by rw [hG'']; exact q1) (by rw [hG'']; exact q2) hL1 hL2
+  rw [hc'] at c1 c2
+  have hspec : nearestMag N D = cap (ratRaw (4 * N) D 2 L) := by
+    have := nearestMag_bunits N D 0 2 L hN0 hD (by decide) hL52
+      (by rw [show N * 2 ^ (2 - 0) = 4 * N by rw [Nat.sub_zero]; ring]; exact hL1)
+      (by rw [show N * 2 ^ (2 - 0) = 4 * N by rw [Nat.sub_zero]; ring]; exact hL2)
+    rw [show N * 2 ^ (2 - 0) = 4 * N by rw [Nat.sub_zero]; ring] at this
+    simpa using this
+  refine ⟨by rw [hspec]; exact cap_close _ _ c2 c1, ?_⟩
+  intro hov
+  have hVf1 : B ≤ N / D := (Nat.le_div_iff_mul_le hD).2 hBD
+  have hVf2 : N / D < B + u := by
+    rw [Nat.div_lt_iff_lt_mul hD]
+    have e : (B + u) * D = B * D + u * D := by ring
+    have e2 : (2 * B + u) * D = 2 * (B * D) + u * D := by ring
+    have : 0 < u * D := Nat.mul_pos hu0 hD
+    omega
+  obtain ⟨_, _, r3, _⟩ := raw_close b s (N / D) hb (by rw [hBd]; exact hVf1) (fun h => absurd h (by omega))
+    (fun _ => by rw [hu, hBd]; exact hVf2)
+  have hmax : (2 ^ 53 - 1) * 2 ^ 971 ≤ N / D := (Nat.le_div_iff_mul_le hD).2 hov
+  exact cap_ge_maxFinite _ (Nat.le_trans (floorRaw_ge_maxFinite _ hmax) r3)
 
 end Qentem.StrToNum
